@@ -445,7 +445,7 @@ class VerifyingKey(object):
         s1, empty = der.remove_sequence(string)
         if empty != b"":
             raise der.UnexpectedDER(
-                "trailing junk after DER pubkey: %s" % binascii.hexlify(empty)
+                "trailing junk after DER pubkey: %s" % binascii.hexlify(empty).decode()
             )
         s2, point_str_bitstring = der.remove_sequence(s1)
         # s2 = oid_ecPublicKey,oid_curve
@@ -454,7 +454,7 @@ class VerifyingKey(object):
         if empty != b"":
             raise der.UnexpectedDER(
                 "trailing junk after DER pubkey objects: %s"
-                % binascii.hexlify(empty)
+                % binascii.hexlify(empty).decode()
             )
         if not oid_pk == oid_ecPublicKey:
             raise der.UnexpectedDER(
@@ -466,7 +466,7 @@ class VerifyingKey(object):
         if empty != b"":
             raise der.UnexpectedDER(
                 "trailing junk after pubkey pointstring: %s"
-                % binascii.hexlify(empty)
+                % binascii.hexlify(empty).decode()
             )
         # raw encoding of point is invalid in DER files
         if len(point_str) == curve.verifying_key_length:
@@ -1042,7 +1042,7 @@ class SigningKey(object):
         s, empty = der.remove_sequence(s)
         if empty != b(""):
             raise der.UnexpectedDER(
-                "trailing junk after DER privkey: %s" % binascii.hexlify(empty)
+                "trailing junk after DER privkey: %s" % binascii.hexlify(empty).decode()
             )
 
         version, s = der.remove_integer(s)
@@ -1071,7 +1071,7 @@ class SigningKey(object):
             if empty != b"":
                 raise der.UnexpectedDER(
                     "unexpected data after algorithm identifier: %s"
-                    % binascii.hexlify(empty)
+                    % binascii.hexlify(empty).decode()
                 )
 
             # Up next is an octet string containing an ECPrivateKey. Ignore
@@ -1084,7 +1084,7 @@ class SigningKey(object):
             if empty != b(""):
                 raise der.UnexpectedDER(
                     "trailing junk after DER privkey: %s"
-                    % binascii.hexlify(empty)
+                    % binascii.hexlify(empty).decode()
                 )
 
             version, s = der.remove_integer(s)
@@ -1108,7 +1108,7 @@ class SigningKey(object):
             if empty != b(""):
                 raise der.UnexpectedDER(
                     "trailing junk after DER privkey "
-                    "curve_oid: %s" % binascii.hexlify(empty)
+                    "curve_oid: %s" % binascii.hexlify(empty).decode()
                 )
             curve = find_curve(curve_oid)
 
